@@ -1162,14 +1162,36 @@ def independent_key_breaks(fn: ast.AST) -> list[tuple[ast.For, ast.Break]]:
                 for b in s.body + s.orelse:
                     if isinstance(b, ast.Break):
                         out.append((loop, b))
+    # the general form: any loop that stores one entry per element under a key derived from the element
+    for loop in walk_body(fn):
+        if not isinstance(loop, ast.For) or any(l is loop for l, _b in out):
+            continue
+        derived = {x.id for x in ast.walk(loop.target) if isinstance(x, ast.Name)}
+        for _ in range(3):
+            for s in ast.walk(loop):
+                if isinstance(s, ast.Assign) and any(isinstance(x, ast.Name) and x.id in derived for x in ast.walk(s.value)):
+                    derived |= {t.id for t in s.targets if isinstance(t, ast.Name)}
+        stores = [x for s in loop.body for x in ast.walk(s) if isinstance(x, ast.Subscript) and isinstance(x.ctx, ast.Store)
+                  and any(isinstance(y, ast.Name) and y.id in derived for y in ast.walk(x.slice))]
+        if not stores:
+            continue
+        for b in ast.walk(loop):
+            if isinstance(b, ast.Break):
+                owner = parent(b)
+                while owner is not None and not isinstance(owner, (ast.For, ast.While)):
+                    owner = parent(owner)
+                if owner is loop:
+                    out.append((loop, b))
     return out
 
 
 def independent_keys(check: Check, funcs: Iterable[ast.AST], rule: str = "INDEPENDENT-KEYS") -> int:
     check.rule(
         rule,
-        "a loop over a fixed tuple of names that stores one result per name (`out[name] = ...`) treats the names "
-        "independently: it is not left with `break` when one of them has nothing to contribute. Folding the three root "
+        "a loop that stores one result per element under a key taken from the element (`out[name] = ...`; in "
+        "particular a loop over a fixed tuple of names) treats the elements independently: it is not left with `break` "
+        "when one of them has nothing to contribute (`continue` is meant). An optional variable that was not provided "
+        "must not stop the coercion of the variables declared after it; folding the three root "
         "operation types into `for operation in ('query', 'mutation', 'subscription')` with `if root is None: break` drops "
         "the subscription root of every schema without a mutation type",
     )
